@@ -493,6 +493,10 @@ func (encryptor *QueryDataEncryptor) getInsertPlaceholders(ctx context.Context, 
 				logger.WithFields(logrus.Fields{"value_index": i, "column_count": len(columns)}).Warningln("Amount of values in INSERT bigger than column count")
 				continue
 			}
+			if value.GetParamRef() == nil {
+				// a static value, not a placeholder
+				continue
+			}
 			err := encryptor.updatePlaceholderMap(valuesCount, placeholders, int(value.GetParamRef().GetNumber()), columns[i])
 			if err != nil {
 				return nil, err
@@ -586,6 +590,10 @@ func (encryptor *QueryDataEncryptor) encryptUpdateValues(ctx context.Context, up
 		}
 
 		columnName := target.GetResTarget().GetName()
+		if target.GetResTarget().GetVal().GetParamRef() == nil {
+			// a static value, not a placeholder
+			continue
+		}
 		index := int(target.GetResTarget().GetVal().GetParamRef().GetNumber())
 		err := encryptor.updatePlaceholderMap(len(values), placeholders, index, columnName)
 		if err != nil {
@@ -602,7 +610,7 @@ func (encryptor *QueryDataEncryptor) encryptUpdateValues(ctx context.Context, up
 func (encryptor *QueryDataEncryptor) updatePlaceholderMap(valuesCount int, placeholders map[int]string, index int, columnName string) error {
 	// Placeholders use 1-based indexing and "values" (Go slice) are 0-based.
 	index--
-	if index >= valuesCount {
+	if index < 0 || index >= valuesCount {
 		logrus.WithFields(logrus.Fields{"placeholder": columnName, "index": index, "values": valuesCount}).
 			Warning("Invalid placeholder index")
 		return base.ErrInvalidPlaceholder
@@ -633,6 +641,12 @@ func (encryptor *QueryDataEncryptor) encryptValuesWithPlaceholders(ctx context.C
 	for valueIndex, columnName := range placeholders {
 		if !schema.NeedToEncrypt(columnName) {
 			continue
+		}
+		if valueIndex < 0 || valueIndex >= len(oldValues) {
+			// the statement refers to a parameter that was not bound
+			logrus.WithFields(logrus.Fields{"index": valueIndex, "column": columnName, "values": len(oldValues)}).
+				Warning("Invalid placeholder index")
+			return oldValues, false, base.ErrInvalidPlaceholder
 		}
 
 		// Allocate the result slice only if there are some values that need encryption.
